@@ -255,7 +255,7 @@ func runCRLHistory(h *Harness, cfg histCfg) {
 		if h.Tier == "thorough" {
 			extra = Pick(tp, 0, 2, 30, 300, 2, 30, 3000)
 			if tp.Chance(1, 60) {
-				extra = 60000
+				extra = 12000 // (one instrumented 60000-entry history costs minutes of wall clock; the full-list audits cover 17000)
 			}
 		}
 		width := Pick(tp, 8, 1, 2, 20, 13)
